@@ -87,7 +87,7 @@ Reg == <<
   E("boo_3d", "boo3d", "ctor", 2, 3, 0, 0, "", {}, {}),
   E("boo_3d.ql_Ql", "boo3d", "method", 3, 3, 0, 0, "", {1, 2}, {}),
   E("boo_3d.sij_ql_Ql", "boo3d", "method", 2, 3, 0, 0, "", {1}, {}),
-  E("boo_3d.w_W_cap", "boo3d", "method", 2, 3, 0, 0, "", {1}, {}),
+  E("boo_3d.w_W_cap", "boo3d", "method", 2, 3, 0, 1, "", {1}, {}),
   E("boo_3d.spatial_corr", "boo3d", "method", 2, 3, 0, 0, "", {1}, {}),
   E("boo_3d.time_corr", "boo3d", "method", 2, 3, 0, 0, "", {1}, {}),
   E("boo_2d", "boo2d", "ctor", 2, 2, 0, 0, "", {1}, {}),
@@ -128,7 +128,11 @@ Applicable(e, s, W) ==
   /\ r.cost = 0 \/ ~W.heavy
   /\ r.fam = "nematic" => W.ori[s]
 
-AllCalls(W)    == {c \in [e : 1..NE, s : Targets, v : 0..5] : c.v < Reg[c.e].nv /\ Applicable(c.e, c.s, W)}
+(* argument variants that are too slow on the large sample trajectories (tensor condition: N^2 Python loop) *)
+SlowVariants(e) == IF Reg[e].n = "conditional_gr" THEN {4} ELSE {}
+IsCall(c, W)   == /\ c.e \in 1..NE /\ c.s \in Targets /\ c.v \in 0..(Reg[c.e].nv - 1)
+                  /\ Applicable(c.e, c.s, W) /\ ~(W.heavy /\ c.v \in SlowVariants(c.e))
+AllCalls(W)    == {c \in [e : 1..NE, s : Targets, v : 0..5] : IsCall(c, W)}
 BaseCalls(W)   == {c \in AllCalls(W) : c.v = 0}
 
 ----------------------------------------------------------------------------
